@@ -12,8 +12,14 @@ import gen
 RULE = ("definitions from the seeded grammar (1-5 states, 0-3 controls, 0-3 calibration; shared sub-expressions; "
         "rational stream and transcendental stream), declaration order/container shuffled, x CSE on/off x dyadic points; "
         "distinct by hash of (definition, cse, point); non-trivial = >=2 states whose sort order differs from declaration "
-        "order, or a control/calibration symbol present (slot binding matters)")
-NOTE = ["sympy lambdify/printers and binary64 rounding (tolerance 1e-9 relative) are outside the model",
+        "order, or a control/calibration symbol present (slot binding matters); "
+        "input-history stream: fixed definitions (rational with 2 controls + 1 calibration, transcendental, one without control), one "
+        "compiled model per CSE setting evaluated at a HISTORY of distinct points with the same dt, the vectors handed over as arrays "
+        "(State.from_data / Control.from_data) and as keyword-built vectors whose .data the caller edits in place between calls; "
+        "every call against exact sympy evaluation at the values the vectors hold at that call")
+NOTE = ["input-history stream: a named vector IS the numbers it holds when the model is called, however it was constructed "
+        "(keywords, from_data, from_dict) or edited since; earlier calls on the same compiled model are not an input of a later one",
+        "sympy lambdify/printers and binary64 rounding (tolerance 1e-9 relative) are outside the model",
         "per-instance obligation `Computes` is established by exact rational evaluation of the recorded block against the "
         "definition's expressions at seeded points (randomised identity test), plus WellScoped; not by a symbolic proof"]
 PARTIAL = ["transcendental definitions: model evaluated in Lean Float (libm), compared within tolerance, no exact obligation"]
@@ -229,6 +235,89 @@ def flag_variants(ctx):
                              dict(case, got=got))
 
 
+def input_history(ctx):
+    """one compiled model evaluated at a history of different points with the SAME dt: what a call returns depends on the values the
+    state / control vectors hold at that call only - not on how the vectors were constructed (arrays through from_data, keywords,
+    from_dict), not on what they held when they were constructed, and not on the points the model was evaluated at before"""
+    import numpy as np
+    from formak import python
+    from fractions import Fraction as Fr
+    dt = sympy.Symbol("dt")
+    a, b, c, u, t, k = (sympy.Symbol(n) for n in ("ha", "hb", "hc", "hu", "ht", "hk"))
+    px, py, hd, sp, trn, acc, wb = (sympy.Symbol(n) for n in ("px", "py", "hd", "sp", "trn", "acc", "wb"))
+    p, q = sympy.Symbol("hp"), sympy.Symbol("hq")
+    defs = [
+        gen.Definition(dt, [b, a, c], [u, t], [k], {a: a + dt * b * u / k, b: b * c - t * dt + k, c: c + a * a * dt - u}, {}, transcend=False),
+        gen.Definition(dt, [px, py, hd, sp], [trn, acc], [wb], {px: px + dt * sp * sympy.cos(hd), py: py + dt * sp * sympy.sin(hd),
+                                                                 hd: hd + dt * sp * trn / wb, sp: sp + dt * acc}, {}, transcend=True),
+        gen.Definition(dt, [q, p], [], [], {p: p + dt * q, q: q - dt * p * p / 4 + 1}, {}, transcend=False),
+    ]
+    # (state values in declaration order, control values in declaration order); consecutive points differ in both, in the control
+    # only, in the state only
+    rows = [((Fr(1, 8), Fr(1), Fr(2), Fr(3)), (Fr(1, 2), Fr(1, 4))),
+            ((Fr(3, 4), Fr(-2), Fr(5), Fr(-1)), (Fr(-3, 2), Fr(3, 8))),
+            ((Fr(3, 4), Fr(-2), Fr(5), Fr(-1)), (Fr(5, 2), Fr(-7, 8))),
+            ((Fr(-5, 4), Fr(4), Fr(1, 4), Fr(7)), (Fr(5, 2), Fr(-7, 8))),
+            ((Fr(9, 8), Fr(-3, 2), Fr(-6), Fr(1, 2)), (Fr(-1, 4), Fr(2)))]
+    for d in defs:
+        core.set_tolerance(d.transcend)
+        cal = {s.name: Fr(5, 2) for s in d.calibration}
+        points = [{"dt": Fr(1, 8), "cal": cal, "state": {s.name: r[0][i] for i, s in enumerate(d.state)},
+                   "control": {s.name: r[1][i] for i, s in enumerate(d.control)}} for r in rows]
+        for cse in (True, False):
+            case0 = {"def": d.describe(), "cse": cse, "stream": "input-history"}
+            try:
+                with fk.quiet():
+                    pm = python.compile(fk.ui_model(d, None, "list"), calibration_map={s: float(cal[s.name]) for s in d.calibration},
+                                        config={"common_subexpression_elimination": cse})
+            except Exception as e:
+                ctx.fail(f"compile-raises:{fk.exc_kind(e)}", f"python.compile refuses a valid definition: {e!r}"[:300], case0); continue
+
+            def column(cls, values):
+                return np.array([[float(values[str(n)])] for n in cls._arglist], dtype=float).reshape(len(cls._arglist), 1)
+
+            def compare(kind, step, pt, call):
+                case = dict(case0, history=kind, step=step, point=pt_json(pt))
+                ctx.case(case, True); ctx.count("stream=input-history"); ctx.count(f"history={kind}"); ctx.count(f"cse={cse}")
+                try:
+                    with fk.quiet():
+                        got = fk.by_name(call())
+                except Exception as e:
+                    ctx.fail(f"model-call-raises:{fk.exc_kind(e)}:input-history:{kind}", f"compiled model call raises {e!r}"[:300], case); return
+                want = oracle_values(d, pt)
+                bad = [n for n in want if not core.close(got.get(n, float("nan")), want[n], scale=max(map(abs, want.values())))]
+                if set(got) != set(want) or bad:
+                    n = bad[0] if bad else sorted(set(got) ^ set(want))[0]
+                    ctx.fail(f"model-value:input-history:{kind}", f"call {step} on one compiled model (same dt, {kind}): state {n}: compiled model returns "
+                             f"{got.get(n)}, symbolic expression at the values held by the vectors at this call evaluates to {want.get(n)}",
+                             dict(case, got=got, want=want))
+
+            # (a) every point as fresh arrays through from_data (the form a filter hands its own state on in)
+            for i, pt in enumerate(points):
+                compare("from_data", i, pt, lambda: pm.model(float(pt["dt"]), pm.State.from_data(column(pm.State, pt["state"])),
+                                                             *([pm.Control.from_data(column(pm.Control, pt["control"]))] if d.control else [])))
+            # (b) one keyword-built State / Control, advanced by the caller in place between the calls
+            try:
+                st = pm.State(**{n: float(v) for n, v in points[0]["state"].items()})
+                ct = pm.Control(**{n: float(v) for n, v in points[0]["control"].items()}) if d.control else None
+            except Exception as e:
+                ctx.fail(f"model-call-raises:{fk.exc_kind(e)}:input-history:construct", repr(e)[:300], case0); continue
+            for i, pt in enumerate(points):
+                def call(pt=pt):
+                    st.data[:, 0] = column(pm.State, pt["state"])[:, 0]
+                    if ct is not None:
+                        ct.data[:, 0] = column(pm.Control, pt["control"])[:, 0]
+                    return pm.model(float(pt["dt"]), st, *([ct] if ct is not None else []))
+                compare("edited-in-place", i, pt, call)
+            # (c) keyword-built and from_dict-built vectors, a fresh pair per point, taken in reverse order, at another dt
+            for i, pt in enumerate(reversed(points)):
+                pt = dict(pt, dt=Fr(3, 16))
+                mk = (lambda cls, vals: cls(**{n: float(v) for n, v in vals.items()})) if i % 2 == 0 else \
+                     (lambda cls, vals: cls.from_dict({sympy.Symbol(n): float(v) for n, v in vals.items()}))
+                compare("keywords", i, pt, lambda: pm.model(float(pt["dt"]), mk(pm.State, pt["state"]),
+                                                            *([mk(pm.Control, pt["control"])] if d.control else [])))
+
+
 def run(ctx):
     audit = core.lean_audit("C01")
     drv = core.Driver()
@@ -254,6 +343,7 @@ def run(ctx):
     check_definition(ctx, drv, big, [gen.gen_point(ctx.rng, big) for _ in range(2)], pending, "many-temporaries")
     role_swap_pairs(ctx, drv, pending)
     flag_variants(ctx)
+    input_history(ctx)          # fixed inputs, consumes nothing from ctx.rng
     settle(ctx, drv.run(), pending)
     return core.finish(ctx, audit, NOTE, RULE, PARTIAL)
 
